@@ -1,6 +1,10 @@
 package sqlparser
 
-import querypb "github.com/cossacklabs/acra/sqlparser/dependency/querypb"
+import (
+	"fmt"
+
+	querypb "github.com/cossacklabs/acra/sqlparser/dependency/querypb"
+)
 
 // RedactSQLQuery returns a sql string with the params stripped out for display
 func RedactSQLQuery(sql string) (string, error) {
@@ -13,6 +17,37 @@ func RedactSQLQuery(sql string) (string, error) {
 	}
 
 	Normalize(stmt, bv, ValueMask)
+	maskLiterals(stmt, ValueMask)
 
 	return comments.Leading + String(stmt) + comments.Trailing, nil
+}
+
+// maskLiterals replaces every literal that Normalize has left in the statement by a
+// ":<prefix>N" placeholder. Normalize converts only the values that can become bind
+// variables (strings, and the integers and floats that fit the 64-bit types); hexadecimal,
+// bit and PostgreSQL escape-string literals and numbers out of range stay as they are.
+// That is right for building bind variables, but not for a text that is printed into logs.
+func maskLiterals(stmt Statement, prefix string) {
+	reserved := GetBindvars(stmt)
+	counter := 1
+	_ = Walk(func(node SQLNode) (kontinue bool, err error) {
+		val, ok := node.(*SQLVal)
+		if !ok || val == nil {
+			return true, nil
+		}
+		switch val.Type {
+		case StrVal, IntVal, FloatVal, HexNum, HexVal, BitVal, PgEscapeString:
+			for {
+				newName := fmt.Sprintf("%s%d", prefix, counter)
+				if _, taken := reserved[newName]; !taken {
+					reserved[newName] = struct{}{}
+					val.Type = ValArg
+					val.Val = append([]byte(":"), newName...)
+					break
+				}
+				counter++
+			}
+		}
+		return true, nil
+	}, stmt)
 }
